@@ -26,7 +26,7 @@ import (
 )
 
 type Op struct {
-	K    string   `json:"k"`              // new fromslice fromkeys fromvalues add remove has len slice string range clone addset removeset union intersect setdiff symdiff cartesian
+	K    string   `json:"k"`              // new fromslice fromkeys fromvalues add remove has len slice string range clone addset removeset union intersect setdiff symdiff cartesian; addmany removemany hasmany = one add/remove/has per element of L, in order
 	Impl string   `json:"impl,omitempty"` // M | S (constructors)
 	H    int      `json:"h,omitempty"`    // receiver handle
 	G    int      `json:"g,omitempty"`    // argument handle
@@ -330,6 +330,9 @@ func run(c *core.Ctx) {
 		exec(c, randomHistory(c))
 	}
 
+	// 6. large sets (oracle-heavy, model-sampled)
+	largeStream(c)
+
 	// 5. receiver = argument (outside the model: oracle only)
 	for m := 0; m < 16; m++ {
 		for _, ia := range impls {
@@ -349,6 +352,201 @@ func run(c *core.Ctx) {
 			}
 		}
 	}
+}
+
+// ---- large sets: sizes around every power of two up to 4096 ----
+
+var largeSizes = []int{0, 1, 2, 3, 7, 8, 9, 15, 16, 17, 31, 32, 33, 47, 63, 64, 65, 100, 127, 128, 129, 255, 256, 257, 511, 512, 513,
+	1023, 1024, 1025, 2047, 2048, 2049, 4095, 4096, 4097}
+
+func span(lo, n int) []int {
+	s := make([]int, n)
+	for i := range s {
+		s[i] = lo + i
+	}
+	return s
+}
+
+// buildLarge: like build, with bulk calls. The receiver universe u is split
+// into members x and removed keys u \ x by the caller.
+func buildLarge(impl string, h int, u, x []int, profile int) (ops []Op, nt bool) {
+	prim, nt := build(impl, h, u, x, profile)
+	// compress runs of add / remove on the same handle
+	for i := 0; i < len(prim); {
+		k := prim[i].K
+		if k != "add" && k != "remove" {
+			ops = append(ops, prim[i])
+			i++
+			continue
+		}
+		var l []int
+		for i < len(prim) && prim[i].K == k {
+			l = append(l, prim[i].V)
+			i++
+		}
+		ops = append(ops, Op{K: k + "many", H: h, L: l})
+	}
+	return
+}
+
+// after a main call on receiver h: membership probes of the removed keys,
+// re-adds of the removed keys (before any promotion), a promotion by one of
+// Len / Slice / Range / String / misses, and a full re-read.
+func afterLarge(h int, univ, removed []int, variant int) []Op {
+	var ops []Op
+	ops = append(ops, Op{K: "hasmany", H: h, L: removed})
+	ops = append(ops, Op{K: "addmany", H: h, L: removed})
+	ops = append(ops, Op{K: "hasmany", H: h, L: removed})
+	switch variant % 5 {
+	case 0:
+		ops = append(ops, Op{K: "len", H: h})
+	case 1:
+		ops = append(ops, Op{K: "slice", H: h})
+	case 2:
+		ops = append(ops, Op{K: "range", H: h})
+	case 3:
+		ops = append(ops, Op{K: "string", H: h})
+	default: // promotion by misses, then by Range
+		ops = append(ops, Op{K: "hasmany", H: h, L: univ}, Op{K: "hasmany", H: h, L: univ})
+	}
+	ops = append(ops, Op{K: "hasmany", H: h, L: removed})
+	ops = append(ops, Op{K: "len", H: h}, Op{K: "slice", H: h}, Op{K: "hasmany", H: h, L: univ}, Op{K: "string", H: h}, Op{K: "len", H: h})
+	return ops
+}
+
+func largeStream(c *core.Ctx) {
+	impls := []string{"M", "S"}
+	recvSizes := []int{3, 40, 70, 300} // members of the receiver before the call
+	argProfiles := []int{0, 1, 3, 6}
+	n, k, emitted := 0, 0, 0
+	maxEmit := c.N(60, 600, 0)
+	for _, size := range largeSizes {
+		for _, ia := range impls {
+			for pa := 0; pa < profilesOf(ia); pa++ {
+				for _, ib := range impls {
+					for _, op := range binops {
+						n++
+						// the larger sizes run a fraction of the combinations (every profile and call still occurs at every size class)
+						if (size > 1100 && n%12 != 0) || (size > 200 && size <= 1100 && n%4 != 0) {
+							continue
+						}
+						k++
+						m := recvSizes[k%len(recvSizes)]
+						if size > 600 && m > 70 {
+							m = 70
+						}
+						// receiver universe 0..m+r-1 with r removed keys spread over it (first, last, every ~m/r-th)
+						r := []int{1, 2, 5, 64}[(k/3)%4]
+						if r > m {
+							r = m
+						}
+						ur := span(0, m+r)
+						var removed []int
+						for i := 0; i < r; i++ {
+							removed = append(removed, i*(m+r-1)/max(r-1, 1))
+						}
+						if r == 1 {
+							removed = []int{1}
+						}
+						xr := minus(ur, removed)
+						removed = minus(ur, xr) // deduplicated, sorted
+						// argument: size members starting inside the receiver's range (so it holds some removed keys,
+						// some members, some new values), plus extras removed again in the nil profiles
+						lo := []int{0, 1, m / 2, m + r, -5}[(k/5)%5]
+						xa := span(lo, size)
+						ua := append(span(lo-2, 2), xa...)
+						pb := 0
+						if ib == "S" {
+							pb = argProfiles[(k/7)%len(argProfiles)]
+						}
+						if op == "cartesian" && (len(xr)+r)*(size+2) > 30000 {
+							continue
+						}
+						opsA, ntA := buildLarge(ia, 0, ur, xr, pa)
+						opsB, ntB := buildLarge(ib, 1, ua, xa, pb)
+						ops := append(opsA, opsB...)
+						ops = append(ops, Op{K: op, H: 0, G: 1, Main: true, NT: ntA || ntB})
+						univ := append(append([]int{}, ur...), minus(ua, ur)...)
+						ops = append(ops, afterLarge(0, univ, removed, n)...)
+						// the argument: untouched membership; then its own re-adds / promotion / re-read
+						ops = append(ops, Op{K: "len", H: 1}, Op{K: "slice", H: 1})
+						ops = append(ops, afterLarge(1, univ, minus(ua, xa), n/2)...)
+						switch op {
+						case "union", "intersect", "setdiff", "symdiff":
+							ops = append(ops, Op{K: "len", H: 2}, Op{K: "hasmany", H: 2, L: univ}, Op{K: "slice", H: 2})
+							// the result is detached: empty it, re-read the operands
+							ops = append(ops, Op{K: "removemany", H: 2, L: univ}, Op{K: "len", H: 0}, Op{K: "len", H: 1}, Op{K: "len", H: 2})
+						}
+						cs := Case{Tag: fmt.Sprintf("large %s%s %s/%s %s n=%d m=%d r=%d", ia, ib, profileNames[pa], profileNames[pb], op, size, m, len(removed)), Ops: ops}
+						if emitted < maxEmit && size <= 65 && m <= 40 && n%11 == 0 {
+							cs.Emit = true
+							emitted++
+						}
+						exec(c, cs)
+					}
+				}
+			}
+		}
+		// unary: Range with stop indices around the size, Clone, constructors of that size
+		for _, ia := range impls {
+			for pa := 0; pa < profilesOf(ia); pa++ {
+				n++
+				if size > 1100 && n%3 != 0 {
+					continue
+				}
+				ur := span(0, size+3)
+				removed := []int{0, size / 2, size + 2}
+				xr := minus(ur, removed)
+				removed = minus(ur, xr)
+				for ji, j := range []int{1, 63, 64, 65, len(xr) - 1, len(xr), len(xr) + 1, 1 << 40} {
+					if j < 1 || (size > 130 && (ji+n)%4 != 0) {
+						continue
+					}
+					ops, nt := buildLarge(ia, 0, ur, xr, pa)
+					ops = append(ops, Op{K: "range", H: 0, V: j, Main: true, NT: nt})
+					ops = append(ops, afterLarge(0, ur, removed, n+j)...)
+					exec(c, Case{Tag: fmt.Sprintf("large range %s %s n=%d j=%d", ia, profileNames[pa], len(xr), j), Ops: ops})
+				}
+				ops, nt := buildLarge(ia, 0, ur, xr, pa)
+				ops = append(ops, Op{K: "clone", H: 0, Main: true, NT: nt})
+				ops = append(ops, afterLarge(1, ur, removed, n)...)
+				ops = append(ops, afterLarge(0, ur, removed, n+1)...)
+				ops = append(ops, Op{K: "removemany", H: 1, L: ur}, Op{K: "len", H: 0}, Op{K: "len", H: 1})
+				cs := Case{Tag: fmt.Sprintf("large clone %s %s n=%d", ia, profileNames[pa], len(xr)), Ops: ops}
+				if emitted < maxEmit+10 && size <= 65 && n%5 == 0 {
+					cs.Emit = true
+					emitted++
+				}
+				exec(c, cs)
+			}
+			// constructors: size values with repetitions (slice), size keys / values
+			vals := make([]int, 0, size+size/3)
+			for i := 0; i < size; i++ {
+				vals = append(vals, i*7%(size+1)-3)
+				if i%3 == 0 {
+					vals = append(vals, i/2)
+				}
+			}
+			var pairs [][2]int
+			for i := 0; i < size; i++ {
+				pairs = append(pairs, [2]int{i - 3, i * 5 % (size/2 + 1)})
+			}
+			uu := span(-4, size+8)
+			for _, ctor := range []Op{{K: "fromslice", Impl: ia, L: vals, Main: true}, {K: "fromkeys", Impl: ia, P: pairs, Main: true}, {K: "fromvalues", Impl: ia, P: pairs, Main: true}} {
+				ops := []Op{ctor}
+				ops = append(ops, afterLarge(0, uu, []int{-4, size + 3}, n)...)
+				exec(c, Case{Tag: fmt.Sprintf("large %s %s n=%d", ctor.K, ia, size), Ops: ops, Emit: size == 64 || size == 17})
+			}
+		}
+	}
+	c.Note(fmt.Sprintf("large stream: %d binary cases + unary/constructor cases over sizes %v (oracle); %d of them also on the Coq model", n, largeSizes, emitted))
+}
+
+func max(a, b int) int {
+	if a > b {
+		return a
+	}
+	return b
 }
 
 func randMap(c *core.Ctx, vals []int) [][2]int {
@@ -530,6 +728,31 @@ func pairList(p [][2]int) string {
 
 var binCoq = map[string]string{"union": "BUnion", "intersect": "BIntersect", "setdiff": "BSetDiff", "symdiff": "BSymDiff"}
 
+// expand replaces addmany / removemany / hasmany by the calls they stand for.
+func expand(ops []Op) []Op {
+	big := false
+	for _, op := range ops {
+		if op.K == "addmany" || op.K == "removemany" || op.K == "hasmany" {
+			big = true
+		}
+	}
+	if !big {
+		return ops
+	}
+	var out []Op
+	for _, op := range ops {
+		switch op.K {
+		case "addmany", "removemany", "hasmany":
+			for _, v := range op.L {
+				out = append(out, Op{K: strings.TrimSuffix(op.K, "many"), H: op.H, V: v})
+			}
+		default:
+			out = append(out, op)
+		}
+	}
+	return out
+}
+
 func exec(c *core.Ctx, cs Case) {
 	c.Begin(cs)
 	c.Count("cases_" + strings.SplitN(cs.Tag, " ", 2)[0])
@@ -549,9 +772,17 @@ func exec(c *core.Ctx, cs Case) {
 	defer func() { sync2.VerifHook = nil }()
 
 	fail := func(i int, op Op, what, detail string) {
+		if len(op.L) > 40 {
+			op.L = op.L[:40]
+		}
+		if len(detail) > 1500 {
+			detail = detail[:1500] + "..."
+		}
 		c.Fail(fmt.Sprintf("%s: %s", op.K, what), fmt.Sprintf("call %d %+v: %s", i, op, detail))
 	}
-	for i, op := range cs.Ops {
+	ops := expand(cs.Ops)
+	emit := cs.Emit && !c.NoModel // Coq terms are only built for cases the model will see
+	for i, op := range ops {
 		okH := op.H >= 0 && op.H < len(hs)
 		okG := op.G >= 0 && op.G < len(hs)
 		isCtor := op.K == "new" || op.K == "fromslice" || op.K == "fromkeys" || op.K == "fromvalues"
@@ -645,7 +876,10 @@ func exec(c *core.Ctx, cs Case) {
 					fail(i, op, "Add reports the wrong change", fmt.Sprintf("returned %v, member before: %v", got, refs[op.H][op.V]))
 				}
 				refs[op.H][op.V] = true
-				term, obs = fmt.Sprintf("CAdd %d %s", op.H, core.Z(op.V)), "VBool "+core.Bool(got)
+				term = "-"
+				if emit {
+					term, obs = fmt.Sprintf("CAdd %d %s", op.H, core.Z(op.V)), "VBool "+core.Bool(got)
+				}
 			case "remove":
 				univ[op.V] = true
 				got := hs[op.H].Remove(op.V)
@@ -653,14 +887,20 @@ func exec(c *core.Ctx, cs Case) {
 					fail(i, op, "Remove reports the wrong change", fmt.Sprintf("returned %v, member before: %v", got, refs[op.H][op.V]))
 				}
 				delete(refs[op.H], op.V)
-				term, obs = fmt.Sprintf("CRemove %d %s", op.H, core.Z(op.V)), "VBool "+core.Bool(got)
+				term = "-"
+				if emit {
+					term, obs = fmt.Sprintf("CRemove %d %s", op.H, core.Z(op.V)), "VBool "+core.Bool(got)
+				}
 			case "has":
 				univ[op.V] = true
 				got := hs[op.H].Has(op.V)
 				if got != refs[op.H][op.V] {
 					fail(i, op, "Has disagrees with the membership", fmt.Sprintf("Has(%d)=%v, members %v", op.V, got, sorted(refs[op.H])))
 				}
-				term, obs = fmt.Sprintf("CHas %d %s", op.H, core.Z(op.V)), "VBool "+core.Bool(got)
+				term = "-"
+				if emit {
+					term, obs = fmt.Sprintf("CHas %d %s", op.H, core.Z(op.V)), "VBool "+core.Bool(got)
+				}
 			case "len":
 				got := hs[op.H].Len()
 				if got != len(refs[op.H]) {
@@ -672,7 +912,10 @@ func exec(c *core.Ctx, cs Case) {
 				if msg := enumOK(got, refs[op.H]); msg != "" {
 					fail(i, op, "Slice "+msg, fmt.Sprintf("Slice()=%v, members %v", got, sorted(refs[op.H])))
 				}
-				term, obs = fmt.Sprintf("CSlice %d", op.H), "VList "+core.ZList(got)
+				term = "-"
+				if emit {
+					term, obs = fmt.Sprintf("CSlice %d", op.H), "VList "+core.ZList(got)
+				}
 			case "string":
 				got := hs[op.H].String()
 				toks, vals, ok := parseString(got)
@@ -681,7 +924,10 @@ func exec(c *core.Ctx, cs Case) {
 				} else if msg := enumOK(vals, refs[op.H]); msg != "" {
 					fail(i, op, "String "+msg, fmt.Sprintf("String()=%q, members %v", got, sorted(refs[op.H])))
 				}
-				term, obs = fmt.Sprintf("CString %d", op.H), "VToks "+core.List(toks)
+				term = "-"
+				if emit {
+					term, obs = fmt.Sprintf("CString %d", op.H), "VToks "+core.List(toks)
+				}
 			case "range":
 				var seen []int
 				calls := 0
@@ -707,7 +953,10 @@ func exec(c *core.Ctx, cs Case) {
 					}
 					part[v] = true
 				}
-				term, obs = fmt.Sprintf("CRange %d %d", op.H, op.V), "VList "+core.ZList(seen)
+				term = "-"
+				if emit {
+					term, obs = fmt.Sprintf("CRange %d %d", op.H, op.V), "VList "+core.ZList(seen)
+				}
 			case "clone":
 				r := hs[op.H].Clone()
 				ref := map[int]bool{}
@@ -785,7 +1034,9 @@ func exec(c *core.Ctx, cs Case) {
 				// the result itself is checked right away (a re-read of the result may not
 				// follow); this Slice is a call on the new handle, recorded for the model too
 				got := r.Slice()
-				extra = fmt.Sprintf("(CSlice %d, VList %s)", len(hs), core.ZList(got))
+				if emit {
+					extra = fmt.Sprintf("(CSlice %d, VList %s)", len(hs), core.ZList(got))
+				}
 				if enumOK(got, ref) != "" {
 					sort.Ints(got)
 					fail(i, op, "result is not the set-algebra result", fmt.Sprintf("got %v want %v: receiver %v argument %v", got, sorted(ref), sorted(refs[op.H]), sorted(refs[op.G])))
@@ -813,7 +1064,10 @@ func exec(c *core.Ctx, cs Case) {
 					}
 					seen[[2]int{p.A, p.B}] = true
 				}
-				term, obs = fmt.Sprintf("CCartesian %d %d", op.H, op.G), pairsTerm(got)
+				term = "-"
+				if emit {
+					term, obs = fmt.Sprintf("CCartesian %d %d", op.H, op.G), pairsTerm(got)
+				}
 			default:
 				fail(i, op, "malformed case", "unknown call")
 			}
@@ -834,15 +1088,17 @@ func exec(c *core.Ctx, cs Case) {
 		if term == "" {
 			return
 		}
-		terms = append(terms, "("+term+", "+obs+")")
-		if extra != "" {
-			terms = append(terms, extra)
+		if emit {
+			terms = append(terms, "("+term+", "+obs+")")
+			if extra != "" {
+				terms = append(terms, extra)
+			}
 		}
 	}
 	if nontrivial {
 		c.Nontrivial()
 	}
-	c.CountN("calls", len(cs.Ops))
+	c.CountN("calls", len(ops))
 	if cs.Emit {
 		c.Emit(fmt.Sprintf("Case %s %s", core.ZList(sorted(univ)), core.List(terms)))
 	}
